@@ -43,6 +43,9 @@ HARNESSES = [
        desc='as ets_2t with 2 free slices per thread', bounds={'threads': 2, 'free_rounds': 2, 'forced_rounds': 2, 'unroll': 1, 'slots': '4->8', 'hash_bits': 3}),
   dict(name='ets_2t_k2', unit='ets2k2', harness='h_ets.c', defines={'NT': 2, 'ROUNDS': 1, 'HBITS': 3}, tiers=['thorough'], timeout=3000, mem_gb=8, cbmc=['--unwind', '19'], scenarios=ETS_SC,
        desc='as ets_2t with every loop unrolled twice (two probe steps / two CAS retries inside one slice)', bounds={'threads': 2, 'free_rounds': 1, 'forced_rounds': 2, 'unroll': 2, 'slots': '4->8', 'hash_bits': 3}),
+  dict(name='ets_retry_3t', unit='ets3', harness='h_ets.c', defines={'NT': 3, 'ROUNDS': 1, 'FORCED': 3, 'HBITS': 3, 'MAXLG': 3, 'PRE': 0, 'COVER_RETRY': None}, tiers=['thorough'], timeout=3000, mem_gb=8, cbmc=['--unwind', '19'],
+       desc='empty table, three first accesses (counts 1,2,3): the grower wanting 8 slots loses its CAS on my_root to a 4-slot array, retries with r = new_r and completes (witness assumption COVER_RETRY)',
+       bounds={'threads': 3, 'free_rounds': 1, 'forced_rounds': 3, 'unroll': 1, 'slots': '4 vs 8', 'hash_bits': 3}),
   dict(name='ets_3t', unit='ets3', harness='h_ets.c', defines={'NT': 3, 'ROUNDS': 1, 'HBITS': 4, 'MAXLG': 4}, tiers=['thorough'], timeout=3000, mem_gb=8, cbmc=['--unwind', '35'],
        scenarios=[{'PRE': 2, 'H3': 9, 'H4': 9}],
        desc='ets_base::table_lookup, 3 first accesses on a table with 2 elements: inserts 3,4,5 cross 4->8 and 8->16 slots', bounds={'threads': 3, 'free_rounds': 1, 'forced_rounds': 2, 'unroll': 1, 'slots': '4->8->16', 'hash_bits': 4}),
